@@ -275,7 +275,7 @@ func (t *tree) parseCss(token item) ast.Node {
 	var exprText = strings.TrimSpace(cmdText.val[:lastComma])
 	return &ast.CssNode{
 		token.pos,
-		t.parseQuotedExpr(exprText),
+		t.parseQuotedExpr(token.pos, exprText),
 		strings.TrimSpace(cmdText.val[lastComma+1:]),
 	}
 }
@@ -325,7 +325,7 @@ func (t *tree) parseCall(token item) ast.Node {
 		if data == "all" {
 			allData = true
 		} else {
-			dataNode = t.parseQuotedExpr(data)
+			dataNode = t.parseQuotedExpr(token.pos, data)
 		}
 	}
 
@@ -419,7 +419,7 @@ func (t *tree) parseCallParams() []ast.Node {
 			t.expect(itemRightDelim, "param")
 			params = append(params, &ast.CallParamContentNode{initial.pos, key, value})
 		} else {
-			value = t.parseQuotedExpr(valueStr)
+			value = t.parseQuotedExpr(initial.pos, valueStr)
 			t.expect(itemRightDelimEnd, "param")
 			params = append(params, &ast.CallParamValueNode{initial.pos, key, value})
 		}
@@ -817,9 +817,11 @@ func (t *tree) boolAttr(attrs map[string]string, key string, defaultValue bool) 
 }
 
 // parseQuotedExpr ignores the current lex/parse state and parses the given
-// string as a standalone expression.
-func (t *tree) parseQuotedExpr(str string) ast.Node {
-	var tt = &tree{lex: lexExpr("", str)}
+// string as a standalone expression. Its nodes are positioned from pos, the
+// position of the tag that holds the string: a render error inside the
+// expression is then reported on the line of that tag (not on line 1).
+func (t *tree) parseQuotedExpr(pos ast.Pos, str string) ast.Node {
+	var tt = &tree{lex: lexExprAt("", str, pos)}
 	defer tt.lex.drain()
 	// an error in the quoted expression is reported in this file, at the position
 	// of the tag that holds it (not at line 1 of a nameless input).
